@@ -27,7 +27,10 @@ def build(cfg):
     from amaranth_soc import wishbone
     from amaranth_soc.memory import MemoryMap
     aw, dw, gran = cfg["aw"], cfg["dw"], cfg["gran"]
-    dec = wishbone.Decoder(addr_width=aw, data_width=dw, granularity=gran, features=cfg["feat"],
+    dfeat = cfg["feat"]
+    if cfg.get("feat_enum"):      # the same feature set given as Feature members / as the set of another interface
+        dfeat = {wishbone.Feature(f) for f in dfeat}
+    dec = wishbone.Decoder(addr_width=aw, data_width=dw, granularity=gran, features=dfeat,
                            alignment=cfg.get("align", 0))
     m = Module()
     m.submodules.dec = dec
@@ -37,7 +40,8 @@ def build(cfg):
             sdw, sgran = dw, gran
         else:
             sdw = sgran = sc["sgran"]
-        bus = wishbone.Interface(addr_width=sc["aw"], data_width=sdw, granularity=sgran, features=sc["feat"],
+        sfeat = sc["feat"] if not cfg.get("feat_enum") else frozenset(wishbone.Feature(f) for f in sc["feat"])
+        bus = wishbone.Interface(addr_width=sc["aw"], data_width=sdw, granularity=sgran, features=sfeat,
                                  path=(f"s{k}",))
         bus.memory_map = MemoryMap(addr_width=max(1, sc["aw"] + log2(sdw // sgran)), data_width=sgran)
         if sc.get("align_to") is not None:
@@ -242,6 +246,7 @@ def configs(tier):
             add(dict(aw=aw, dw=dw, gran=gran, feat=dfeat, subs=subs2))
     # the same configurations with the decoder queried and elaborated between the add() calls
     extra = [dict(c, use_between=True) for c in out if len(c["subs"]) >= 2][::(6 if quick else 2)]
+    extra += [dict(c, feat_enum=True) for c in out if c["feat"]][::(5 if quick else 2)]
     return out + extra
 
 
